@@ -101,6 +101,11 @@ func mayBeNilErr(v ssa.Value, b *ssa.BasicBlock) bool {
 		return x.IsNil()
 	case *ssa.MakeInterface:
 		return false
+	case *ssa.UnOp:
+		// the sentinel variables of package io are never nil
+		if g, ok := x.X.(*ssa.Global); ok && x.Op == token.MUL && g.Pkg != nil && g.Pkg.Pkg.Path() == "io" {
+			return false
+		}
 	case *ssa.Phi:
 		for i, e := range x.Edges {
 			pb := x.Block().Preds[i]
@@ -110,7 +115,7 @@ func mayBeNilErr(v ssa.Value, b *ssa.BasicBlock) bool {
 		}
 		return false
 	case *ssa.Call:
-		if f := staticCallee(x); f != nil && f.Pkg != nil && f.Pkg.Pkg.Path() == "fmt" && f.Name() == "Errorf" {
+		if f := staticCallee(x); f != nil && f.Pkg != nil && ((f.Pkg.Pkg.Path() == "fmt" && f.Name() == "Errorf") || (f.Pkg.Pkg.Path() == "errors" && f.Name() == "New")) {
 			return false
 		}
 		// error filters such as unexpectedEOF(err): non-nil in, non-nil out
